@@ -746,3 +746,10 @@ def impl_lines_cc(case, res):
         ",".join(en_final), ",".join(futs), ",".join(outs), "end" if ents["M"][0] == "done" else "live",
         ",".join(ws), ",".join(ps), ",".join(q), res.get("nfiles", -1)))
     return lines
+
+
+def gen_cblockd_case(rng, max_calls=4, allow_fail=True):
+    """cached block executor with identical calls (hits, identical calls in flight), no failing calls, no I/O fault"""
+    c = gen_cblock_case(rng, max_calls=max_calls, allow_fail=False, dups=True)
+    c.pop("iofault", None)
+    return c
